@@ -61,7 +61,8 @@ pub fn run(args: &[String]) -> i32 {
             let s = sess.lock().expect("lock");
             let reset = json!({"op": {"op": "reset", "beh": v.get("id").cloned().unwrap_or(json!(ln)),
                 "phys": phys.describe(), "key_alpha": 0, "val_alpha": 0, "blob": false, "filter": [],
-                "shared": false, "fault_line": 0, "big": [], "conc": true},
+                "shared": false, "fault_line": 0, "big": [], "conc": true,
+                "bcfg": {"thr": 0, "target": 0, "stale": 0, "cutoff": 0}},
                 "ret": "ok", "rk": "ok", "ro": false, "info": {}, "st": s.project(), "obs": s.observe()});
             writeln!(wr, "{reset}").expect("write");
         }
